@@ -16,7 +16,15 @@ import time
 from . import common
 
 ALL_OPS = ['mset', 'mdel', 'mpop', 'mget', 'mupdate', 'mclear', 'aset', 'adel', 'load', 'loadk', 'dump', 'dumpk',
-           'sync', 'arch_on', 'arch_off', 'open', 'drop', 'archived']
+           'sync', 'arch_on', 'arch_off', 'open', 'drop', 'archived',
+           'mlen', 'mkeys', 'mcontains', 'msetdefault', 'mpopitem', 'mpopkeys', 'mpopkeysd', 'aclear', 'aupdate']
+
+
+def enc_seq(vals):
+    r = 0
+    for v in vals:
+        r = r * 100 + v
+    return r
 BACKENDS = ['dict', 'file', 'file-json', 'file-py', 'dir', 'dir-fast', 'dir-compressed', 'dir-json', 'dir-py',
             'sql-mem', 'sql-file']
 NK, NA = 3, 2
@@ -135,6 +143,27 @@ class StoreRecorder(object):
                     c.update({K(o['k']): o['v'], K(o['k2']): o['v2']})
                 elif op == 'mclear':
                     c.clear()
+                elif op == 'mlen':
+                    e['ret'] = len(c)
+                elif op == 'mkeys':
+                    e['ret'] = enc_seq(sorted(int(k[1:]) for k in c.keys()))
+                elif op == 'mcontains':
+                    e['ret'] = 1 if K(o['k']) in c else 0
+                elif op == 'msetdefault':
+                    e['ret'] = c.setdefault(K(o['k']), o['v'])
+                elif op == 'mpopitem':
+                    e['rk'] = 0
+                    rk, rv = c.popitem()
+                    e['rk'] = int(rk[1:]) if isinstance(rk, str) and rk[1:].isdigit() else -1
+                    e['ret'] = rv
+                elif op == 'mpopkeys':
+                    e['ret'] = enc_seq(c.popkeys([K(k) for k in o['keys']]))
+                elif op == 'mpopkeysd':
+                    e['ret'] = enc_seq(c.popkeys([K(k) for k in o['keys']], 77))
+                elif op == 'aclear':
+                    self.handles[o['x'] - 1][1].clear()
+                elif op == 'aupdate':
+                    self.handles[o['x'] - 1][1].update({K(o['k']): o['v'], K(o['k2']): o['v2']})
                 elif op == 'aset':
                     self.handles[o['x'] - 1][1][K(o['k'])] = o['v']
                 elif op == 'adel':
@@ -231,10 +260,17 @@ def random_ops(rng, n):
         if op in ('mset', 'aset'):
             o['k'] = rng.randint(1, NK)
             o['v'] = 10 * o['k'] + rng.randint(1, 3)
-        if op in ('mdel', 'mpop', 'mget', 'adel'):
+        if op == 'msetdefault':
             o['k'] = rng.randint(1, NK)
-        if op in ('aset', 'adel', 'open'):
+            o['v'] = 10 * o['k'] + rng.randint(1, 3)
+        if op in ('mdel', 'mpop', 'mget', 'adel', 'mcontains'):
+            o['k'] = rng.randint(1, NK)
+        if op in ('aset', 'adel', 'open', 'aclear', 'aupdate'):
             o['x'] = rng.randint(1, NA)
+        if op == 'aupdate':
+            o.update({'k': 1, 'v': 10 + rng.randint(1, 3), 'k2': 2, 'v2': 20 + rng.randint(1, 3)})
+        if op in ('mpopkeys', 'mpopkeysd'):
+            o['keys'] = rng.choice([[1], [2], [1, 2], [2, 3], [2, 1], [1, 1], [3, 1, 2]])
         if op == 'mupdate':
             o.update({'k': 1, 'v': 10 + rng.randint(1, 3), 'k2': 2, 'v2': 20 + rng.randint(1, 3)})
         if op in ('loadk', 'dumpk'):
